@@ -192,6 +192,33 @@ ASM_CORPUS = {
     "msp430": [("asm_basic", "section code\nstart: mov.w r14, r15\nmov.w #0x1337, r12\nadd.w r4, r5\njmp start\n")],
 }
 
+# an assembly that fails after it queued a literal / emitted something: what it leaves behind must not reach the next object
+for _fam, _src in (("arm", "section code\nldr r0, =far_symbol\nmov r1,\n"), ("riscv", "section code\nstart: addi x5, x4, 5\nbogus x1,\n"),
+                   ("x86_64", "section code\nstart: mov rax, rbx\nbogus rax,\n"), ("msp430", "section code\nstart: mov.w r14, r15\nbogus r1,\n")):
+    ASM_CORPUS[_fam].append(("asm_fail", _src))
+
+# a header that exists in three -I directories: the directory searched first decides (list order, never hash order)
+INC_DIRS = ["inc_first", "inc_second", "inc_third"]
+C_CORPUS.insert(3, ("inc_shadow", "#include <config.h>\n#include \"config.h\"\nint shadow(int a) { return a * CONFIG_VALUE + CONFIG_VALUE; }\n"))
+
+
+def include_dirs():
+    """Create (idempotently) the three include directories under /verif/build and return their paths."""
+    base = os.path.join(os.path.dirname(os.path.dirname(os.path.dirname(os.path.abspath(__file__)))), "build", "c30inc")
+    out = []
+    for k, d in enumerate(INC_DIRS):
+        path = os.path.join(base, d)
+        os.makedirs(path, exist_ok=True)
+        f = os.path.join(path, "config.h")
+        text = "#define CONFIG_VALUE %d\n" % (1000 + 37 * k)
+        if not os.path.exists(f) or open(f).read() != text:
+            tmp = f + ".%d" % os.getpid()
+            open(tmp, "w").write(text)
+            os.replace(tmp, f)
+        out.append(path)
+    return out
+
+
 TARGETS = ["x86_64", "arm", "riscv", "arm:thumb", "riscv:rvc", "or1k", "microblaze",
            "mips", "msp430", "xtensa", "m68k", "avr", "stm8"]
 
@@ -362,7 +389,13 @@ def compile_op(prog, target, level, cpu=60):
                 obj = api.asm(io.StringIO(src), target)
             else:
                 rep = make_reporter(events)
-                obj = api.cc(io.StringIO(src), target, opt_level=level, reporter=rep)
+                copts = None
+                if prog == "inc_shadow":
+                    from ppci.lang.c import COptions
+                    copts = COptions()
+                    for d in include_dirs():
+                        copts.add_include_path(d)
+                obj = api.cc(io.StringIO(src), target, coptions=copts, opt_level=level, reporter=rep)
             f = io.StringIO()
             obj.save(f)
             objtext = f.getvalue()
